@@ -44,7 +44,7 @@ func init() {
 func (c *c13) Cases(tier string, seed int64) []core.Case {
 	var cs []core.Case
 	r := core.Rng("C13", tier, seed)
-	nsets := map[string]int{"quick": 2, "thorough": 8}[tier]
+	nsets := map[string]int{"quick": 2, "thorough": 20}[tier]
 	for _, f := range []string{"par2", "par1"} {
 		for s := 0; s < nsets; s++ {
 			sd := r.Int63()
